@@ -158,7 +158,9 @@ def _needs_relink(
 ) -> bool:
     destination = meta.destination
     is_symlink = meta.is_link
-    is_hardlink = meta.nlink > 1
+    # NOTE: the metadata of a symlink describes its target (the cache
+    # object), whose link count says nothing about the symlink itself
+    is_hardlink = not is_symlink and meta.nlink > 1
     is_copy = not is_symlink and not is_hardlink
 
     for link_type in cache.cache_types:
